@@ -132,6 +132,7 @@ def explore(cond: Cond, seed: int) -> dict:
                 res['status'] = 'timeout'
                 break
             res['paths'] += 1
+            _reset_model_caches()
             space = StateSpace(execution_deadline=now + cond.path_timeout,
                                model_check_timeout=cond.path_timeout / 2, search_root=root)
             K = None
@@ -207,6 +208,11 @@ def explore(cond: Cond, seed: int) -> dict:
     if res['status'] == 'confirmed' and res['reached'] == 0:
         res['status'] = 'vacuous'
     return res
+
+
+def _reset_model_caches():
+    import bitarray._core as C
+    C.reset_provenance()
 
 
 def _child(cond: Cond, seed: int, outpath: str):
